@@ -263,6 +263,5 @@ def scheduler_accounting_is_paired(ctx):
     rb = ctx.func('bandwidth.LeakyBucket._raise_request_exceeded_exception')
     cs = [c for c in own_calls(rb.node) if (dotted(c.func) or '').endswith('schedule_consumption')]
     ok = len(cs) == 1 and isinstance(cs[0]._parent, ast.Assign) and any(isinstance(n, ast.Raise) and norm(kwarg(n.exc, 'retry_time')) == norm(cs[0]._parent.targets[0]) for n in own_nodes(rb.node) if isinstance(n.exc if isinstance(n, ast.Raise) else None, ast.Call))
-    at = [v for st, v in q.local_defs(rb, 'allocated_time') if isinstance(v, ast.AST)]
-    ok2 = len(at) == 1 and norm(at[0]).replace(' ', '') in ('amt/float(self._max_rate)', 'amt/self._max_rate') and len(cs) == 1 and norm(cs[0].args[2]) == 'allocated_time'
+    ok2 = len(cs) == 1 and len(cs[0].args) == 3 and (q.ntext(rb, cs[0].args[2]) or '').replace(' ', '') in ('amt/float(self._max_rate)', 'amt/self._max_rate')
     ctx.ob(rb, 'retry_time of the exception = the wait returned by the scheduler; share = amt / max_rate', ok and ok2, 'the advised wait must be the scheduled one and a request\'s share its size at the maximum rate')
